@@ -14,7 +14,7 @@ import (
 	"sort"
 )
 
-const MaxThreads = 6
+const MaxThreads = 12
 
 type VC [MaxThreads]int
 
@@ -83,6 +83,7 @@ type Exec struct {
 	vars      map[string]*varState
 	Counts    map[string][2]int // per variable: reads, writes
 	SyncOps   int
+	Spawned   int // goroutines started by the library itself
 	panicked  any
 	Trace     []string // optional event log
 	LogEvents bool
@@ -128,24 +129,50 @@ func RunKeyed(bodies []func(), choose func(p PointInfo) int, logEvents bool, key
 	}
 	active = e
 	for _, t := range e.threads {
-		t := t
-		go func() {
-			<-t.wake
-			defer func() {
-				if r := recover(); r != nil {
-					e.panicked = fmt.Sprintf("thread %d panicked: %v", t.id, r)
-				}
-				t.done = true
-				e.schedule("exit", "")
-			}()
-			t.body()
-		}()
+		go e.runThread(t)
 	}
 	e.cur = nil
 	e.dispatch(PointInfo{Running: -1, Kind: "start"})
 	<-e.mainCh
 	active = nil
 	return e
+}
+
+func (e *Exec) runThread(t *thread) {
+	<-t.wake
+	defer func() {
+		if r := recover(); r != nil {
+			e.panicked = fmt.Sprintf("thread %d panicked: %v", t.id, r)
+		}
+		t.done = true
+		e.schedule("exit", "")
+	}()
+	t.body()
+}
+
+// Go starts fn as a new controlled thread: the instrumenter rewrites the go
+// statements of the library to calls of Go. The child starts after everything
+// the parent did so far (spawn edge); which of the two continues is a
+// scheduling decision. Outside a controlled execution it is a go statement.
+func Go(fn func()) {
+	e := active
+	if e == nil || e.cur == nil {
+		go fn()
+		return
+	}
+	if len(e.threads)+1 >= MaxThreads {
+		panic(fmt.Sprintf("vsched: more than %d threads (goroutines started by the library count)", MaxThreads-1))
+	}
+	parent := e.cur
+	t := &thread{id: len(e.threads) + 1, wake: make(chan struct{}), body: fn}
+	t.vc = parent.vc
+	t.vc[t.id] = 1
+	parent.vc[parent.id]++
+	e.threads = append(e.threads, t)
+	e.Version++
+	e.Spawned++
+	go e.runThread(t)
+	e.schedule("go", "")
 }
 
 func (e *Exec) Panicked() any { return e.panicked }
